@@ -32,10 +32,10 @@ TestedSizes(S, bound) == {KSize(k) : k \in Tested(S, bound)}
 MaxInt == 2147483647
 RECURSIVE Pow(_, _)
 Pow(x, e) == IF e = 0 THEN 1 ELSE x * Pow(x, e - 1)
-\* x^e if it is at most cap, else 0 (never overflows for cap <= MaxInt, x >= 1)
-RECURSIVE PowCap(_, _, _)
-PowCap(x, e, cap) == IF e = 0 THEN 1
-                     ELSE LET r == PowCap(x, e - 1, cap) IN IF r = 0 \/ r > cap \div x THEN 0 ELSE r * x
+\* x^e if it is at most cap, else 0 (never overflows for cap <= MaxInt, x >= 1; stops at the first excess)
+RECURSIVE PowAcc(_, _, _, _)
+PowAcc(x, e, cap, acc) == IF e = 0 THEN acc ELSE IF acc > cap \div x THEN 0 ELSE PowAcc(x, e - 1, cap, acc * x)
+PowCap(x, e, cap) == PowAcc(x, e, cap, 1)
 RECURSIVE Choose(_, _)
 Choose(n, k) == IF k < 0 \/ k > n THEN 0 ELSE IF k = 0 THEN 1 ELSE (Choose(n - 1, k - 1) * n) \div k
 RECURSIVE ProdSet(_, _)
